@@ -276,13 +276,13 @@ theorem each_filter_search (sorted : List Info) (need : Int)
 theorem feasible_perm (s : Strat) {l₁ l₂ : List Info} (hp : l₁.Perm l₂) (need limit : Int) :
     feasible s l₁ need limit = feasible s l₂ need limit := by
   cases s <;>
-    simp only [feasible, effLimit, hp.length_eq, (hp.filter _).length_eq, sumBy_perm hp] <;> try rfl
+    simp only [feasible, effLimit, effLimitEach, hp.length_eq, (hp.filter _).length_eq, sumBy_perm hp] <;> try rfl
 
 theorem feasible_each_iff (sorted : List Info) (need limit : Int)
     (hs : sorted.Pairwise (fun a b => averageLess b a = false)) :
     feasible .each sorted need limit = true ↔
-      (effLimit sorted limit ≤ sorted.length ∧
-       max (effLimit sorted limit) 1 ≤
+      (effLimitEach sorted limit ≤ sorted.length ∧
+       max (effLimitEach sorted limit) 1 ≤
          ((search sorted.length (fun i => decide ((sorted.getD i default).cap < need)) : Nat) : Int)) := by
   simp only [feasible, ge_iff_le, decide_eq_true_eq, ← each_filter_search sorted need hs]
 
@@ -291,44 +291,38 @@ theorem averageOn_cases (sorted : List Info) (need limit : Int)
     (∀ p, averageOn sorted need limit = .ok p → feasible .each sorted need limit = true) ∧
     (∀ e, averageOn sorted need limit = .err e →
       (e = errInsufficient ∨ e = errInsufficientCapacity) ∧ feasible .each sorted need limit = false) ∧
-    (0 ≤ limit → (∀ m, averageOn sorted need limit ≠ .panic m) ∧ averageOn sorted need limit ≠ .diverge) := by
+    (∀ m, averageOn sorted need limit ≠ .panic m) ∧ averageOn sorted need limit ≠ .diverge := by
   have hf := feasible_each_iff sorted need limit hs
   rw [Bool.eq_false_iff, Ne, hf]
   unfold averageOn
   simp only
-  unfold effLimit
+  unfold effLimitEach
   generalize (search sorted.length (fun i => decide ((sorted.getD i default).cap < need))) = P
-  have hL : 0 ≤ limit → 0 ≤ (if limit = 0 then (sorted.length : Int) else limit) := by
-    intro h; split <;> omega
-  generalize (if limit = 0 then (sorted.length : Int) else limit) = L at hL ⊢
+  generalize (if limit ≤ 0 then (sorted.length : Int) else limit) = L
   by_cases h1 : (sorted.length : Int) < L
   · simp only [if_pos h1]
     exact ⟨fun _ => nofun, fun e h => (by cases h; exact ⟨Or.inl rfl, by omega⟩),
-      fun _ => ⟨fun _ => nofun, nofun⟩⟩
+      fun _ => nofun, nofun⟩
   · simp only [if_neg h1]
     by_cases h2 : (P : Int) = 0
     · simp only [if_pos h2]
       exact ⟨fun _ => nofun, fun e h => (by cases h; exact ⟨Or.inr rfl, by omega⟩),
-        fun _ => ⟨fun _ => nofun, nofun⟩⟩
+        fun _ => nofun, nofun⟩
     · simp only [if_neg h2]
       by_cases h3 : (P : Int) < L
       · simp only [if_pos h3]
         exact ⟨fun _ => nofun, fun e h => (by cases h; exact ⟨Or.inl rfl, by omega⟩),
-          fun _ => ⟨fun _ => nofun, nofun⟩⟩
+          fun _ => nofun, nofun⟩
       · simp only [if_neg h3]
-        by_cases h4 : L < 0
-        · simp only [if_pos h4]
-          exact ⟨fun _ => nofun, fun _ => nofun,
-            fun hl => by have := hL hl; omega⟩
-        · simp only [if_neg h4]
-          exact ⟨fun p _ => by omega, fun _ => nofun,
-            fun _ => ⟨fun _ => nofun, nofun⟩⟩
+        exact ⟨fun p _ => by omega, fun _ => nofun,
+          fun _ => nofun, nofun⟩
 
+/-- EACH never panics or diverges, whatever the limit (after the fix: `limit ≤ 0` means all nodes) -/
 theorem each_cases (infos : List Info) (need limit : Int) :
     (∀ p, average infos need limit = .ok p → feasible .each infos need limit = true) ∧
     (∀ e, average infos need limit = .err e →
       (e = errInsufficient ∨ e = errInsufficientCapacity) ∧ feasible .each infos need limit = false) ∧
-    (0 ≤ limit → (∀ m, average infos need limit ≠ .panic m) ∧ average infos need limit ≠ .diverge) := by
+    (∀ m, average infos need limit ≠ .panic m) ∧ average infos need limit ≠ .diverge := by
   rw [← feasible_perm .each (isort_perm averageLess infos)]
   exact averageOn_cases _ need limit (isort_sorted averageLess_sw infos)
 
